@@ -96,6 +96,7 @@ impl StunMessage {
 //@end
 }
 
+//@include inc/post_n.rs
 //@include inc/img_vocab.rs
 // the pieces written by one loop iteration make up tlv_step
 proof fn lemma_compose(rf: Seq<u8>, af: Seq<u8>, p: Seq<u8>, a: StunAttribute, l2: int, n: int, vl: int)
